@@ -16,10 +16,12 @@
 
 Every failure is minimised (families, samples, then every string replaced by a benign one / every optional part dropped while
 the failure persists) and classified into exactly one signature:
+    (repaired in /repo: bc8d08a, 7b52129, 64745db — ordinary failure classes now; reverting a fix brings them back)
     C04:exemplar-quote-in-label              F18: '"' in an exemplar label name/value, exposition line well-formed
-    C04:negative-fractional-timestamp        F10: Timestamp(sec<0, nsec!=0) is written '-1.-500000000'
-    C04:negative-subsecond-timestamp         F10b: a float timestamp in (-1, 0) loses its sign
+    C04:negative-fractional-timestamp        F10: Timestamp(sec<0, nsec!=0) was written '-1.-500000000'
+    C04:negative-subsecond-timestamp         F10b: a float timestamp in (-1, 0) lost its sign
     C04:exponent-float-timestamp-mantissa    F28: repr in exponent form with >= 9 mantissa digits read by the aaaa.bbbb branch
+    (known findings)
     C04:negative-bound-count-without-sum     F17: in-process Histogram with a negative first bound
     C04:duplicate-mixed-timestamp-spelling   F29 (converse only): one series twice at one instant, once as aaaa.bbbb and once in float
                                              spelling — kept on the first parse (a Timestamp never equals a float), dropped on the second
@@ -604,7 +606,7 @@ def note_none(_):
     pass
 
 
-CLEAN = [True]          # generator mode: avoid the inputs of the recorded findings F10, F10b, F17, F18, F28 (most cases)
+CLEAN = [True]          # generator mode: avoid the input class of the known finding F17 (most cases)
 
 
 def gen_ts_single(rng, note):
@@ -624,19 +626,16 @@ def gen_ts_single(rng, note):
     if form == 'now':
         return {'f': lib.bits_of(1.7e9 + rng.random() * 1e8)}
     if form == 'float-exp':
-        xs = [1e16, 1.5e16, 2e22, 1e-5, 1.5e-7, 1e300]
-        if not CLEAN[0]:
-            xs += [1.234567891e-05, 1.2345678912345678e+16]
+        xs = [1e16, 1.5e16, 2e22, 1e-5, 1.5e-7, 1e300, 1.234567891e-05, 1.2345678912345678e+16]
         return {'f': lib.bits_of(rng.choice(xs))}
-    xs = [{'i': -5}, {'f': lib.bits_of(-100.5)}, {'s': [-100, 0]}, {'f': lib.bits_of(-1.0)}]
-    if not CLEAN[0]:
-        xs += [{'s': [-100, 5]}, {'f': lib.bits_of(-0.5)}, {'f': lib.bits_of(-0.0005)}]
+    xs = [{'i': -5}, {'f': lib.bits_of(-100.5)}, {'s': [-100, 0]}, {'f': lib.bits_of(-1.0)}, {'s': [-100, 5]}, {'f': lib.bits_of(-0.5)},
+          {'f': lib.bits_of(-0.0005)}, {'f': lib.bits_of(-0.0)}, {'s': [-1, 999999999]}]
     return rng.choice(xs)
 
 
 def gen_ex_labels(rng, legacy, allow_quote=None):
     if allow_quote is None:
-        allow_quote = not CLEAN[0]
+        allow_quote = True
     n = rng.choice([0, 1, 1, 2, 3])
     names = c03.gen_labelnames(rng, legacy, n)
     out = []
@@ -730,11 +729,10 @@ def gen_ts_group(rng, n, note):
         elif form == 'float-frac':
             out.append({'f': lib.bits_of(base + k + rng.choice([0.1, 0.123456789, 1e-9, 0.999999999, 0.0005, 1234.5678]))})
         elif form == 'float-exp':
-            out.append({'f': lib.bits_of(rng.choice([1e16, 1.5e16, 2e22, 1e-5, 1.5e-7] + ([] if CLEAN[0] else [1.234567891e-05, 1.2345678912345678e+16]))
-                                         * (k + 1))})
+            out.append({'f': lib.bits_of(rng.choice([1e16, 1.5e16, 2e22, 1e-5, 1.5e-7, 1.234567891e-05, 1.2345678912345678e+16]) * (k + 1))})
         elif form == 'neg':
-            out.append(rng.choice([{'i': -100 + k}, {'f': lib.bits_of(-100.5 + k)}, {'s': [-100 + k, 0]}] +
-                                  ([] if CLEAN[0] else [{'s': [-100 + k, 5]}, {'f': lib.bits_of(-0.5 + k)}])))
+            out.append(rng.choice([{'i': -100 + k}, {'f': lib.bits_of(-100.5 + k)}, {'s': [-100 + k, 0]}, {'s': [-100 + k, 5]},
+                                   {'f': lib.bits_of(-0.5 + k)}]))
         else:
             out.append(rng.choice([{'i': base + k}, {'f': lib.bits_of(base + k + 0.5)}, {'s': [base + k, 5]}]))
     return out
@@ -1059,7 +1057,7 @@ def mutate_doc(rng, doc):
 
 
 CORPUS_DOCS = [
-    'a 1 -1.5\n# EOF\n',                                                 # F10
+    'a 1 -1.5\n# EOF\n',                                                 # F10 (repaired 7b52129)
     '# TYPE a gauge\na 1 -1.000000001\n# EOF\n',
     'a 1 -0.5\n# EOF\n',                                                 # F10b: accepted as +0.5, stable from then on
     'a 1 1.234567891e-05\n# EOF\n',                                      # F28: accepted as 1.234567891, stable from then on
@@ -1360,6 +1358,17 @@ def run(ctx):
     finally:
         c14om.set_legacy(False)
     ctx.extra['c04_phase_s'] = phases
+    ctx.extra['remarks'] = [
+        "openmetrics.exposition._is_valid_exemplar_metric: `metric.type in ('histogram') and sample.name.endswith('_bucket') or "
+        "sample.name == metric.name` — `and` binds tighter than `or`, so the last test applies to EVERY type (and `x in ('histogram')` is a "
+        "substring test): a gauge / unknown / stateset sample named like its family carries an exemplar through generate_latest "
+        "(`g 1.0 # {a=\"b\"} 1.0`), which the library's own parser then rejects ('only histogram/gaugehistogram buckets and counters can "
+        "have exemplars').  Reachable only through custom collectors (Metric.add_sample(..., exemplar=…)); the content breaks the C15 rule "
+        "'exemplars on ineligible samples', so it is outside C04's domain (counted as skip:rule:exemplar-ineligible) — recorded as an "
+        "observation, not a violation.",
+        "nan / inf float timestamps: generate_latest writes them (`t 1.0 nan`), the parser raises ValueError('Invalid timestamp') on purpose; "
+        "they are rule content (skip:rule:~timestamp-not-finite), the only timestamps outside TsOK.",
+    ]
     print('C04 phases (s): %s' % phases)
     ctx.rule = ('(a) registries from declarative specs — instrumentation classes (units, _created, inc/observe with exemplars), every '
                 '*MetricFamily helper, raw Metric.add_sample through custom collectors with the three timestamp forms (int, float incl. '
